@@ -168,7 +168,7 @@ SchemaKind(s) ==
 
 DescRefSeq(max) == T_Seq(T_Struct("DescRef"), max)
 
-Schema(s, F) ==
+SchemaRaw(s, F) ==
   CASE s = "McReq" -> <<                                      \* CTAP 2.1 6.1, 2.2 adds 0x0B
         IR(1,  "clientDataHash", T_Bytes(-1)),
         IR(2,  "rp", T_Struct("Rp")),
@@ -351,14 +351,24 @@ Schema(s, F) ==
         SR(N_sig, "sig", T_Bytes(ASN1_SIGNATURE_LENGTH)),
         SN(N_x5c, "x5c", T_Seq(T_Bytes(1024), 1)) >>
 
+\* The tables are looked up very often by the codec; they are computed once per configuration
+\* (TLC evaluates constant definitions a single time).
+AllConfigs == SUBSET Features
+SchemaTab  == [ff \in AllConfigs |-> [s \in SchemaNames |-> SchemaRaw(s, ff)]]
+Schema(s, F) == SchemaTab[F][s]
+
 \* members that exist in configuration F
-Members(s, F) == SelectSeq(Schema(s, F), LAMBDA m : m.feat = "" \/ m.feat \in F)
+MembersTab == [ff \in AllConfigs |-> [s \in SchemaNames |->
+                  SelectSeq(SchemaTab[ff][s], LAMBDA m : m.feat = "" \/ m.feat \in ff)]]
+Members(s, F) == MembersTab[F][s]
 
 \* all member names of a schema regardless of configuration (fixed record shape)
-AllNames(s) == LET all == Schema(s, Features) IN {all[i].name : i \in 1..Len(all)}
+AllNamesTab == [s \in SchemaNames |-> LET all == SchemaTab[Features][s] IN {all[i].name : i \in 1..Len(all)}]
+AllNames(s) == AllNamesTab[s]
 
-MemberByName(s, F, nm) ==
-    LET ms == Schema(s, Features) IN ms[CHOOSE i \in 1..Len(ms) : ms[i].name = nm]
+MemberByNameTab == [s \in SchemaNames |-> [nm \in AllNamesTab[s] |->
+                       LET ms == SchemaTab[Features][s] IN ms[CHOOSE i \in 1..Len(ms) : ms[i].name = nm]]]
+MemberByName(s, F, nm) == MemberByNameTab[s][nm]
 
 \* response kind -> schema
 RespSchema(kind) ==
